@@ -751,6 +751,9 @@ def plan(tier):
         # a spanning cell followed by >= 2 ordinary cells under a non-uniform preamble needs >= 4 columns
         p.append(('T2V', (4, 1, 2), 8, {}))
         p.append(('T2V', (5, 1, 1), 4, {}))
+        # ... and so does a \cline that has to be counted past a spanning cell and the ordinary cell after it
+        p.append(('T2', (4, 1, 1, 0), 4, {}))
+        p.append(('T2', (4, 2, 1, 1), 8, {}))
         for n, r in ((1, 1), (1, 2), (2, 1), (2, 2), (3, 1), (3, 2)):
             p.append(('T5', (n, r, 2), 4 if n * r >= 4 else 1, {}))
         p.append(('T6', (3,), 1, {}))
@@ -840,7 +843,7 @@ SUMMARY = {
     'quick': ('lists: all labelled trees depth<=3, <=3 items/list, <=3 items in total (article class and blank-line spelling: '
               '<=2 in total); all shapes depth<=3 with <=2 items/list (any size) and with <=3 items/list up to 6 items, 18 '
               'labellings each. tables: preambles of 1-3 columns (types lcrp, lcp for 3 columns); span/rule grids 1-3 x 1-3 '
-              'with <=2 multicolumns (3x3 with all bars: <=1); cline pairs up to 3x2; vertical-bar/alignment family up to 3x2 '
+              'with <=2 multicolumns (3x3 with all bars: <=1), 4x1 and 4x2 with <=1 multicolumn; cline pairs up to 3x2; vertical-bar/alignment family up to 3x2 '
               'plus 4x1 (<=2 multicolumns) and 5x1 (<=1), all 2^(n+1) bar subsets; cell '
               'contents 1x1..3x1 full menu of 13, 2x2 menu of 6, 3x2 and 2x3 menu of 4; content-less rows: grids 1-3 x 1-2 '
               'with <=2 such rows; vline / over-wide rows up to 3 columns; sibling-list family depth 2-4 (article class)'),
